@@ -301,3 +301,11 @@ package atree
 //@   loop 4: invariant invCoh(s) && (forall j SlabID :: view(s, j) == old(view(s, j))) && (forall id SlabID :: id.address == AddressUndefined ==> untouched(s, id)) &&
 //@        (forall k :: i <= k && k < len(deletedSlabIDs) ==> has(s.deltas, deletedSlabIDs[k]) && s.deltas[deletedSlabIDs[k]] == nil)
 //@   loop 5: invariant invCoh(s) && (forall j SlabID :: view(s, j) == old(view(s, j))) && (forall id SlabID :: id.address == AddressUndefined ==> untouched(s, id))
+//@   # the deletions leave the write set (C15: a successful commit empties the owned write set; the modified ids leave it one per received result)
+//@   loop 4: invariant forall k :: 0 <= k && k < i ==> !has(s.deltas, deletedSlabIDs[k])
+//@   loop 5: invariant forall k :: 0 <= k && k < len(deletedSlabIDs) ==> !has(s.deltas, deletedSlabIDs[k])
+//@   exit[C15] err == nil ==> (forall k :: 0 <= k && k < len(deletedSlabIDs) ==> !has(s.deltas, deletedSlabIDs[k]))
+//@   loop 4: invariant 0 <= i && i <= len(deletedSlabIDs) && len(s.deltas) == old(len(s.deltas)) - i
+//@   assume modifiedSlabCount >= 2 because "A7 cut: proved at the cut by the first view (atcut1)"
+//@   loop 5: invariant 0 <= i && i <= modifiedSlabCount && len(s.deltas) == old(len(s.deltas)) - len(deletedSlabIDs) - i
+//@   exit[C15] err == nil ==> len(s.deltas) == old(len(s.deltas)) - len(deletedSlabIDs) - modifiedSlabCount
